@@ -375,6 +375,15 @@ impl Property for C03 {
         let mut crng = rng.fork();
         fit_capacities(&mut crng, &mut net);
         net.steps = (run_ticks + 1 + max_latency_us.div_ceil(tick) + 4) as u32;
+        // calls that are no part of the alphabet and must not touch an explicit partition: the random failure
+        // process is switched off (again) in the middle of the run, globally or for one link
+        let mut frng = rng.fork();
+        if frng.chance(1, 3) {
+            for _ in 0..frng.usize(1, 2) {
+                let act = if frng.bool() { Act::SetFailRateZero } else { Act::SetLinkFailRateZero(Sel::Name(a), Sel::Name(b)) };
+                net.script.push((frng.range(2, net.steps as u64) as u32, act));
+            }
+        }
         Scenario { net, guarded: false, pair: (a, b), slots }
     }
 
